@@ -22,6 +22,8 @@ unsafe impl Sync for Obj {}
 #[allow(clippy::declare_interior_mutable_const)]
 const OBJ0: Obj = Obj { count: HAtomic::new(0), payload: UnsafeCell::new(0) };
 pub static OBJS: [Obj; POOL] = [OBJ0; POOL];
+/// objects private to the write adversary of the C08 replay (never touched symbolically)
+pub static ADV_OBJS: [Obj; 16] = [OBJ0; 16];
 
 /// Assertion ids (100..) used by the oracle of the instrumented pointer.
 pub const A_INC_ALIVE: u32 = 101;
@@ -42,6 +44,12 @@ impl VPtr {
     pub fn create(i: usize, payload: u64) -> VPtr {
         let o = &OBJS[i];
         vassert(o.count.peek() == 0, A_CREATE_FRESH);
+        unsafe { *o.payload.get() = payload };
+        o.count.store(1, Relaxed);
+        VPtr(o)
+    }
+    /// A handle to an arbitrary static object (used by the native-only write adversary).
+    pub fn adopt(o: &'static Obj, payload: u64) -> VPtr {
         unsafe { *o.payload.get() = payload };
         o.count.store(1, Relaxed);
         VPtr(o)
